@@ -817,11 +817,12 @@ def state_mutators(N):
     return ms
 
 
-def _others(N, tier, seed=0):
+def _others(N, level, tier, seed=0):
+    """Other states used as arguments (expect / measure): one per density matrix on the full menu, a stride on the core menu."""
     reps = stab.representatives(N, seed)
-    if N == 1 or tier:
+    if N == 1 or level:
         return reps
-    return reps[::8]
+    return reps[::3] if tier else reps[::8]
 
 
 def _state_cases(cx, N, idx, level, tier):
@@ -875,7 +876,7 @@ def _state_cases(cx, N, idx, level, tier):
             x = mk()
             O = mk_pauli(typ, g2, (i + idx) % 4)
             call(cx, '%s.expect(%s)' % (K, typ), {'self': x, 'obs': O}, lambda: x.expect(O), ntq=ntq)
-    others = _others(N, tier or level)
+    others = _others(N, level, tier)
     for j in others:
         x = mk()
         y = stab.fresh(N, j)
@@ -1040,7 +1041,7 @@ def _run(f):
     return g
 
 
-def acted_objects(N, tier, seed=0):
+def acted_objects(N, tier, seed=0, dense=False):
     """Fresh objects a gate / layer / circuit is applied to: (kind, maker)."""
     out = []
     G = ref.all_g(N)
@@ -1051,7 +1052,7 @@ def acted_objects(N, tier, seed=0):
     out.append(('PauliPolynomial', lambda: full_list(N, 'PauliPolynomial')))
     out.append(('CliffordMap', lambda: lib.CM(*dom.valid_maps(N)[_FIXED_MAPS[N][3]])))
     reps = stab.representatives(N, seed)
-    for j in (reps if (N == 1 or tier) else reps[::9]):
+    for j in (reps if (N == 1 or dense) else (reps[::4] if tier else reps[::9])):
         out.append(('StabilizerState', (lambda j: lambda: stab.fresh(N, j))(j)))
     return out
 
@@ -1083,10 +1084,10 @@ def gate_mutators():
             ('generator.rotate_by', rot_gen), ('compile', lambda o: o.compile() if (o.generator is not None or o.forward_map is not None or o.backward_map is not None) else None)]
 
 
-def _apply_cases(cx, K, mk, N, tier, has_random=False, ignore=()):
+def _apply_cases(cx, K, mk, N, tier, dense=False, ignore=()):
     """forward / backward of a gate-like object on every kind of object: the acted object changes, the
     gate-like object (stored generator, maps that were set) does not."""
-    for okind, mo in acted_objects(N, tier):
+    for okind, mo in acted_objects(N, tier, dense=dense):
         for d in ('forward', 'backward'):
             gt = mk()
             o = mo()
@@ -1126,7 +1127,7 @@ def fn_gate(items):
             gt.compile()
             if diff(s1, snap(gt), memo=False):
                 cx.bad('C17/%s.compile/not-idempotent' % K, 'second compile() changes the stored maps', desc(snap(gt)), desc(s1))
-        _apply_cases(cx, K, mk, N, tier)
+        _apply_cases(cx, K, mk, N, tier, dense=bool(tier))
         if spec[0] != 'random':
             check_copy(cx, K, mk, gate_mutators(), denote=lambda o: act_key(o, N), ntq=True)
             # copy of a gate whose missing map has been memoised / compiled
